@@ -75,7 +75,8 @@ CHECKS = {
         technique="Coq proof (sorted-list lemmas, gather/scatter algebra) + correspondence + metamorphic checks on the implementation"),
     "C10": dict(
         cat="proof",
-        text="Theorems (Props/C10.v): the literal double loop computes S; |S| <= n(n-1)/2; the variance numerator equals "
+        text="Theorems (Props/C10.v): the literal double loop computes S; |S| <= n(n-1)/2, attained exactly by strictly monotone series "
+             "(tau = +1 / -1) and S = 0 for a constant one (C10_tau_extremes); the variance numerator equals "
              "n(n-1)(2n+5) - sum over tie groups t(t-1)(2t+5) and the tie-free shortcut agrees; S and var(S) are invariant under "
              "every strictly increasing map, flip/keep under negation and time reversal (all series, all lengths); over the "
              "reals Z flips sign, p is even, the flag is odd and equals sign(Z)*[p < alpha] given the quantile hypothesis; "
